@@ -8,6 +8,8 @@ junction path as fastest only with node potentials (exact Dijkstra of the harnes
 line network and `position_from_geoid` are exercised the same way."""
 from __future__ import annotations
 
+from . import framework as fw  # noqa: E402
+
 import heapq
 import logging
 import random
@@ -207,5 +209,5 @@ def worker(args) -> Dict[str, Any]:
             if o.get("mon"):
                 findings.append({"id": r["id"], "kind": "mon", "text": o["mon"][:8], "record": r})
     s = recs[0]
-    return {"n": len(recs), "steps": n_q, "rows": sum(len(r["net"]) for r in recs), "findings": findings[:20], "n_findings": len(findings),
+    return {"n": len(recs), "steps": n_q, "rows": sum(len(r["net"]) for r in recs), "findings": fw.pick(findings, 20), "n_findings": len(findings),
             "shapes": sorted(shapes, key=str), "sample": {"meta": s["meta"], "query": {k: v for k, v in s["queries"][0].items() if k != "pot"} if s["queries"] else None}}
